@@ -19,10 +19,11 @@ RULE = (
     "dir() name evaluates; get_measurement == tabulated value at grid points, linear interpolation of real and "
     "imaginary parts in between, clamped outside, scalar in -> scalar out; to_dataframe() succeeds, is indexed by f and "
     "each column equals the per-bin array (all per-bin arrays present, no others). A RuleBasedStateMachine applies "
-    "{read attribute, copy.copy, copy.deepcopy, pickle round trip, to_dataframe, get_measurement} in any order to a "
-    "pool of results; invariant: every value read from any object equals the value a fresh result gives. "
+    "{read attribute, copy.copy, copy.deepcopy, pickle round trip, to_dataframe, get_measurement, plot (any kind, with "
+    "or without error band, Agg backend)} in any order to a pool of results; invariant: every value read from any "
+    "object equals the value a fresh result gives, and right after a plot every attribute does. "
     "Non-trivial: single-bin or uniform-K result, or a copy/pickle made before any attribute was read; machine runs "
-    "with >=1 copy and >=3 reads."
+    "with >=3 reads and at least one copy or plot."
 )
 ASSUMPTIONS = [
     "pickling is generated only for configurations whose window/scheduler are importable by name (a user lambda is legitimately unpicklable)",
@@ -352,7 +353,7 @@ class ResultHistory(TracedMachine):
                     self.flag("raw_field_changed", q=name, obj=k)
 
     def summary(self):
-        return (self.ncopies >= 1 and self.nreads >= 3), ["machine:" + str(self.kind), "copies>=1" if self.ncopies else "copies=0"] + (["plots>=1"] if self.nplots else [])
+        return ((self.ncopies >= 1 or self.nplots >= 1) and self.nreads >= 3), ["machine:" + str(self.kind), "copies>=1" if self.ncopies else "copies=0"] + (["plots>=1"] if self.nplots else [])
 
 
 PARTS = [
@@ -360,4 +361,4 @@ PARTS = [
     MachinePart("history", ResultHistory, n_quick=60, n_thorough=500, steps=30),
 ]
 QUOTAS = {"uniformK-or-single": {"quick": 150, "thorough": 2000}, "pre:pickle": {"quick": 50, "thorough": 500},
-          "part:history": {"quick": 40, "thorough": 500}}
+          "part:history": {"quick": 40, "thorough": 500}, "plots>=1": {"quick": 30, "thorough": 400}}
